@@ -1,9 +1,9 @@
 (* C09 — the task-cost column of the encode entry point (views/view.py form_one_hot_points_with_tasks) and the task
    dimension it is decoded with (views/rest/gp_next_points_categorical.py _form_domain_with_task_dimension).
    Only statements, each closed by `exact`, with Print Assumptions beneath.
-   Model: LV.Model.Domain, LV.Model.Decode (encode_with_task, snap_tasks), LV.Model.EndpointTail (with_task). *)
+   Model: LV.Model.Domain, LV.Model.Decode (encode_with_task, snap_tasks), LV.Model.EndpointTail (with_task, gp_tail), LV.Model.TaskTail. *)
 From Coq Require Import List QArith ZArith Bool Arith Qround Qabs SetoidList Lia.
-From LV Require Import Model.Domain Model.Decode Proofs.Domain Proofs.Decode Model.EndpointTail Proofs.DecodeTask.
+From LV Require Import Model.Domain Model.Decode Proofs.Domain Proofs.Decode Model.EndpointTail Model.TaskTail Proofs.DecodeTask.
 Import ListNotations.
 Open Scope Q_scope.
 
@@ -42,3 +42,55 @@ Example C09_task_example :
   decode_det (with_task d opts) [-3; 0; 1; 0; 16; (3#10)] = Some [inject_Z (-3); inject_Z 9; 16; (3#10)] /\
   snap_tasks [(3#10)] opts = [(3#10)].
 Proof. vm_compute. repeat split; try reflexivity. right; left; reflexivity. Qed.
+
+(* ------------------------------------------------------------------ "a continuous task cost is snapped to the nearest task option" on the
+   multitask tail of the GP suggestion endpoint (_convert_one_hot_points_for_multitask): proposals are converted, the history is decoded
+   with the task domain, duplicates (of each other, of the history) are rejected and replaced by fresh draws, and ONLY THEN is the task
+   column split off and snapped.  Every returned cost is therefore an option nearest to the raw task coordinate of the row it is returned
+   with - for the kept proposals and for the replacement rows alike, whatever the acquisition function, the history and the draws. *)
+Theorem C09_task_tail_costs_snapped d opts parallel af xs hist hist_oh o r : opts <> [] ->
+  gp_tail d opts parallel af xs hist hist_oh o = Some r ->
+  exists out costs, task_tail_rows d opts af xs hist_oh o = Some out /\
+    r_points r = map (@removelast Q) out /\ r_costs r = Some costs /\
+    Forall2 (fun p c => In c opts /\ forall e, In e opts -> Qabs (last p 0 - c) <= Qabs (last p 0 - e)) out costs.
+Proof. exact (task_tail_costs_snapped d opts parallel af xs hist hist_oh o r). Qed.
+Print Assumptions C09_task_tail_costs_snapped.
+
+(* What those rows are: the proposals kept by the two duplicate tests, in order, followed by the rows drawn for the rejected ones; on an
+   unconstrained domain the latter are the per-component draws, whose last column is the uniform draw of the task dimension - a raw value
+   between the smallest and the largest option, in general not an option (the domain with the task dimension is never discrete). *)
+Theorem C09_task_tail_rows_structure d opts af xs hist_oh o out :
+  task_tail_rows d opts af xs hist_oh o = Some out ->
+  let dt := with_task d opts in
+  exists pts aug kept fill,
+    convert_from_one_hot dt false af (g_dec o) xs = Some pts /\ decode_b dt (g_hdec o) hist_oh = Some aug /\
+    kept_of dt pts aug uniq_tol = Some kept /\ out = kept ++ fill /\
+    ((DSX.zlen pts - DSX.zlen kept =? 0)%Z = true -> fill = []) /\
+    ((DSX.zlen pts - DSX.zlen kept =? 0)%Z = false -> is_constrained d = false ->
+       fill = DSX.quasi_random (DSX.zlen pts - DSX.zlen kept) (q_cols (g_q o))).
+Proof. exact (task_tail_rows_structure d opts af xs hist_oh o out). Qed.
+Print Assumptions C09_task_tail_rows_structure.
+
+(* the decidable form evaluated by the correspondence on the implementation's own answer is sound for the clause *)
+Theorem C09_task_costs_okb_sound opts rows costs : task_costs_okb opts rows costs = true ->
+  Forall2 (fun p c => InA Qeq c opts /\ forall e, In e opts -> Qabs (last p 0 - c) <= Qabs (last p 0 - e)) rows costs.
+Proof. exact (task_costs_okb_sound opts rows costs). Qed.
+Print Assumptions C09_task_costs_okb_sound.
+
+(* non-vacuity: the first proposal duplicates the observed point (1, 4) at task 1/2 and is rejected; its replacement is drawn with the raw
+   task coordinate 11/16 and is returned with the cost 1/2; the second proposal (raw coordinate 7/8) is kept and returned with the cost 1 *)
+Example C09_task_tail_example :
+  let d := {| comps := [Int 0 2; Cat [1; 4]%Z]; cons := [] |} in
+  let opts := [(1#8); (1#2); 1] in
+  let nodec := {| o_rnds := []; o_perms := []; o_cats := [] |} in
+  let o := {| g_dec := {| o_rnds := []; o_perms := []; o_cats := [[4%Z]; [1%Z]] |};
+              g_hdec := {| o_rnds := []; o_perms := []; o_cats := [[4%Z]] |}; g_choice := [];
+              g_q := {| q_cols := [[0]; [4]; [(11#16)]]; q_rows := []; q_dec := nodec |} |} in
+  let af := fun x : row => nth 2 x 0 * (if Qle_bool (nth 0 x 0) 1 then 1 else 0) + nth 1 x 0 * (if Qle_bool 2 (nth 0 x 0) then 1 else 0) in
+  let xs := [[1; 0; 1; (1#2)]; [2; 1; 0; (7#8)]] in
+  let hist_oh := [[1; 0; 1; (1#2)]] in
+  task_tail_rows d opts af xs hist_oh o = Some [[2; 1; (7#8)]; [0; 4; (11#16)]] /\
+  gp_tail d opts false af xs [] hist_oh o = Some {| r_points := [[2; 1]; [0; 4]]; r_costs := Some [1; (1#2)] |} /\
+  task_costs_okb opts [[2; 1; (7#8)]; [0; 4; (11#16)]] [1; (1#2)] = true /\
+  task_costs_okb opts [[2; 1; (7#8)]; [0; 4; (11#16)]] [1; (11#16)] = false.
+Proof. vm_compute. repeat split; reflexivity. Qed.
